@@ -1458,8 +1458,8 @@ class CPHDWriter1(BaseWriter):
                 raise KeyError(_missing_channel_identifier_text.format(index))
         else:
             int_index = int(index)
-            if not (0 <= int_index < self.meta.Data.NumCPHDChannels):
-                raise ValueError(_index_range_text.format(self.meta.Data.NumCPHDChannels))
+            if not (0 <= int_index < len(self.meta.Data.Channels)):
+                raise ValueError(_index_range_text.format(len(self.meta.Data.Channels)))
             return int_index
 
     def _validate_channel_key(self, index: Union[int, str]) -> str:
@@ -1482,8 +1482,8 @@ class CPHDWriter1(BaseWriter):
                 raise KeyError(_missing_channel_identifier_text.format(index))
         else:
             int_index = int(index)
-            if not (0 <= int_index < self.meta.Data.NumCPHDChannels):
-                raise ValueError(_index_range_text.format(self.meta.Data.NumCPHDChannels))
+            if not (0 <= int_index < len(self.meta.Data.Channels)):
+                raise ValueError(_index_range_text.format(len(self.meta.Data.Channels)))
             return self.meta.Data.Channels[int_index].Identifier
 
     def _validate_support_index(self, index: Union[int, str]) -> int:
@@ -1670,7 +1670,7 @@ class CPHDWriter1(BaseWriter):
         if data.shape[0] != entry.NumVectors:
             raise ValueError('Provided data must have size determined by NumVectors')
 
-        if self.meta.PVP.AmpSF is not None and self.meta.Data.SignalCompressionID is None:
+        if self.meta.PVP.AmpSF is not None and getattr(self.meta.Data, 'SignalCompressionID', None) is None:
             amp_sf = numpy.copy(data['AmpSF'][:])
             # noinspection PyUnresolvedReferences
             self._signal_data_segments[identifier].format_function.set_amplitude_scaling(amp_sf)
